@@ -79,6 +79,8 @@ def features(b):
     f = set()
     phase = "idle"
     listed = 0          # accepted submissions since the server last lost its database
+    client_ts = resp_ts = 0     # timestamp the client holds / the one travelling in the response
+    reset_unseen = False        # the server lost its database and the client has not applied a response since
     for i, s in enumerate(b):
         a = s["a"]
         if a == "Submit":
@@ -91,6 +93,7 @@ def features(b):
             f.add(("during", phase, a))
             if a == "ServerReset":
                 listed = 0
+                reset_unseen = True
         elif a in ("ServerRestart", "ClientRestart"):
             # where in the history: poll phase, what the database holds, which server event comes next
             nxt = next((x["a"] + "/" + x.get("kind", "") for x in b[i + 1:]
@@ -98,10 +101,16 @@ def features(b):
             f.add((a, phase, min(listed, 2), nxt))
         elif a == "PollFirst":
             phase = "mid"
+            if reset_unseen:
+                # how the NEW list's timestamp relates to the one the client still holds (equal: only the seed tells them apart)
+                f.add(("poll-after-reset", "<" if listed < client_ts else "=" if listed == client_ts else ">", min(client_ts, 2)))
         elif a == "PollSecond":
             phase = "resp"
+            resp_ts = listed
         elif a == "ClientApply":
             phase = "idle"
+            if not s.get("out"):
+                client_ts, reset_unseen = resp_ts, False
             if s.get("out"):
                 f.add(("outage",))
         elif a == "ClientValidate":
@@ -119,6 +128,12 @@ def pick(behaviours, n, rnd):
     for k in keys:
         rnd.shuffle(by[k])
     out = []
+    # rare situations that must not depend on the luck of the draw: a poll after a server reset that meets the timestamp the
+    # client already holds (three of them, with a non-empty new list)
+    must = [k for k in keys if any(x[0] == "poll-after-reset" and x[1] == "=" and x[2] > 0 for x in k)]
+    for k in must[:3]:
+        if by[k]:
+            out.append(behaviours[by[k].pop()])
     while len(out) < n and keys:
         for k in list(keys):
             if by[k]:
@@ -187,6 +202,19 @@ def selftest_scripts():
     return [dict(id="selftest-%d" % i, steps=st) for i, st in enumerate([
         [S("s1")] + POLL + [S("s2"), dict(a="PollFirst"), dict(a="PollSecond"), S("s3"), dict(a="ClientApply")],
         [S("s1"), dict(a="PollFirst"), dict(a="PollSecond"), S("s2"), dict(a="ClientApply")],
+    ])]
+
+
+def directed_scripts():
+    """Behaviours of Discovery.tla that do not depend on the luck of the draw: the server loses its database and its NEW list
+    reaches exactly the timestamp the client already holds (only the seed tells the two lists apart), with one or two entries,
+    followed by nothing / by one more registration."""
+    R = dict(a="ServerReset")
+    return [dict(id="directed-%d" % i, steps=st) for i, st in enumerate([
+        [S("s1")] + POLL + [R, S("s2")] + POLL,
+        [S("s1")] + POLL + [R, S("s2")] + POLL + [S("s3")] + POLL,
+        [S("s1"), S("s2")] + POLL + [R, S("s3"), S("s1")] + POLL,
+        [S("s1")] + POLL + [R, S("s1")] + POLL,
     ])]
 
 
@@ -343,6 +371,8 @@ def run(prop, tier, seed, replay=None):
     for i, b in enumerate(sim):
         sid = "s%05d" % i
         scripts[sid] = dict(id=sid, steps=concretise(trim(b), rnd, deck))
+    for d in directed_scripts():
+        scripts[d["id"]] = dict(id=d["id"], steps=concretise(d["steps"], rnd, deck))
     order = sorted(scripts.values(), key=lambda s: (0 if any(x["a"] == "Tick" for x in s["steps"]) else 1, s["id"]))
 
     # 2. in parallel: TLC proves the prescriptive design; the behaviours run on the real code
